@@ -57,9 +57,12 @@ theorem fetch_none (b : Nat) : ∀ ts : List (Table α), pending b ts = [] → f
     have h1 : processTable b t = [] := (List.append_eq_nil_iff.mp h).1
     have h2 : pending b ts = [] := (List.append_eq_nil_iff.mp h).2
     simp only [fetch, h1]
-    exact ih h2
+    split
+    · exact ih h2
+    · rfl
 
-theorem fetch_some (b : Nat) : ∀ (ts : List (Table α)) (r : α) (rest : List α), pending b ts = r :: rest →
+theorem fetch_some (L : Gen.ArrowExpr.fetchLoops = true) (b : Nat) :
+    ∀ (ts : List (Table α)) (r : α) (rest : List α), pending b ts = r :: rest →
     ∃ cur ts', fetch b ts = some (r, cur, ts') ∧ cur ++ pending b ts' = rest := by
   intro ts
   induction ts with
@@ -71,7 +74,7 @@ theorem fetch_some (b : Nat) : ∀ (ts : List (Table α)) (r : α) (rest : List 
     | nil =>
       rw [hp, List.nil_append] at h
       obtain ⟨cur, ts', h1, h2⟩ := ih r rest h
-      exact ⟨cur, ts', by simp only [fetch, hp, h1], h2⟩
+      exact ⟨cur, ts', by simp only [fetch, hp, L, if_true, h1], h2⟩
     | cons r' cur =>
       rw [hp, List.cons_append] at h
       injection h with h1 h2
@@ -83,6 +86,7 @@ theorem fetch_some (b : Nat) : ∀ (ts : List (Table α)) (r : α) (rest : List 
 structure NextFacts : Prop where
   stop : ∀ p m : Nat, Gen.ArrowExpr.nextStopTest (p : Int) (m : Int) ↔ m ≤ p
   bump : ∀ p : Nat, bump p = p + 1
+  loops : Gen.ArrowExpr.fetchLoops = true
 
 theorem remaining_eq (s : It α) : s.remaining = s.current ++ pending s.batch s.tables := rfl
 
@@ -110,7 +114,7 @@ theorem next_some (N : NextFacts) (s : It α) (hf : s.full = false) (r : α) (re
     · simpa [It.remaining, pending] using h2
   | nil =>
     rw [hc, List.nil_append] at h
-    obtain ⟨cur, ts', h1, h2⟩ := fetch_some _ _ r rest h
+    obtain ⟨cur, ts', h1, h2⟩ := fetch_some N.loops _ _ r rest h
     refine ⟨{ s with tables := ts', current := cur, processed := bump s.processed }, ?_, ?_, N.bump _, rfl, rfl⟩
     · simp [next, hf, hc, h1]
     · simpa [It.remaining, pending] using h2
